@@ -27,6 +27,7 @@ def run(ctx):
     _run_main(ctx)
     _shared_r4(ctx)
     _shared_r5(ctx)
+    _round7(ctx)
 
 
 def _run_main(ctx):
@@ -100,3 +101,11 @@ def _shared_r5(ctx):
     from rules import arms as A
     with ctx.rule('R13.5', 'a returned message is forwarded verbatim: every field of Basic.Return and of the header is copied to the like-named field (shared with C03)', floor=3) as r:
         A.include(ctx, r, 'c03', 'R03.4', pick=('Return::new',))
+
+
+def _round7(ctx):
+    """Found by seeding round 7 (minimal one-line mutations)."""
+    from rules import arms as A
+    with ctx.rule('R13.6', "a returned message of any size reaches the listener, and the blocked-listener queue is polled under its own token (shared with C03, C10)", floor=7) as r:
+        A.include(ctx, r, 'c03', 'R03.1', pick=(':Return:',))
+        A.include(ctx, r, 'c10', 'R10.7', pick=('source-token-pairs',))
